@@ -17,7 +17,7 @@ import (
 // table answers lookups with both pickers and all matchers without panicking.
 
 var c02Weights = []string{"", "0", "0.3", "1", "2", "-1", "-0.3", "-0.8", "-1e308", "Inf", "+Inf", "-Inf", "NaN", "1e308", "1.7976931348623157e308", "1e-320", "5e-324", "1e400", "0x1p-1074", "abc", "1e-7", "9999999"}
-var c02Paths = []string{"/", "/a", "/[", "/{a", "**", "/a/*", "/[a-", "/\\"}
+var c02Paths = []string{"/", "/a", "/[", "/{a", "**", "/a/*", "/[a-", "/\\", "/a{", "/*b{"}
 var c02Dsts = []string{"http://10.0.0.1:80/", "http://[::1/", "%zz", "http://h/%zz", "tcp://:80", "://", "https://h$path"}
 var c02Opts = []string{"", "redirect=abc", "redirect=999", "redirect=301", "allow=ip:x", "allow=ip:10.0.0.0/33", "deny=ip:1.2.3.4", "strip=/a", "host=dst", "proto=https host=x", "allow", "=", "auth=nope", "allow=ip:10.0.0.0/8 deny=ip:1.1.1.1"}
 
@@ -65,8 +65,8 @@ func c02ExerciseInner(L *ev.Layer, text string, build func() (Table, error), sig
 	msg, stack, pan = ev.Guard(func() {
 		for _, m := range []string{"prefix", "glob", "iprefix"} {
 			for _, pk := range []string{"rr", "rnd"} {
-				for _, host := range []string{"", "foo.com"} {
-					for _, path := range []string{"/", "/a/b", "/[", "**"} {
+				for _, host := range []string{"", "foo.com", "a"} {
+					for _, path := range []string{"/", "/a/b", "/[", "**", "/a"} {
 						for k := 0; k < 3; k++ {
 							r := vfReq(host, path, false)
 							r.Header.Set("X-Forwarded-Proto", "https")
@@ -115,7 +115,7 @@ func panicClass(msg string) string {
 
 func TestVerifC02Text(t *testing.T) {
 	L := ev.Begin("C02", "c02-text", "exploration",
-		"config texts: (a) 1..3 targets on one route with every combination of 19 weight spellings (non-finite, huge, denormal, hex, junk) x 8 paths (bad globs); (b) dst x opts x weight; (c) `route weight` with every weight over 1-2 matching targets; (d) junk lines; each through NewTable then 144 lookups (3 matchers x 2 pickers x hosts x paths) + String + Dump; (e) the same definitions through NewTableCustom incl. nil/null/empty JSON. oracle: (table,nil) or (nil,err), never a panic. non-trivial = text accepted as a table")
+		"config texts: (a) 1..3 targets on one route with every combination of 19 weight spellings (non-finite, huge, denormal, hex, junk) x 10 paths (bad globs, globs with a brace that is never closed); (b) dst x opts x weight; (c) `route weight` with every weight over 1-2 matching targets; (d) junk lines; each through NewTable then 270 lookups (3 matchers x 2 pickers x hosts x paths) + String + Dump; (e) the same definitions through NewTableCustom incl. nil/null/empty JSON. oracle: (table,nil) or (nil,err), never a panic. non-trivial = text accepted as a table")
 	type job struct {
 		text string
 	}
@@ -187,7 +187,9 @@ func TestVerifC02Text(t *testing.T) {
 	}
 	// host patterns that are not valid globs, and lines longer than the scanner's token limit
 	// (a range may be well formed as written and ill formed in the lower-cased form the table stores, and vice versa)
-	for _, h := range []string{"[a", "{a", "a[", "*.[", "foo.com[", "\\", "[Z-a].example.com", "srv-[X-b]*.example.com", "[!Q-h].example.com", "[a-Z].example.com", "[z-a].example.com", "{A,b}.example.com", "[A-Z].example.com"} {
+	for _, h := range []string{"[a", "{a", "a[", "*.[", "foo.com[", "\\", "[Z-a].example.com", "srv-[X-b]*.example.com", "[!Q-h].example.com", "[a-Z].example.com", "[z-a].example.com", "{A,b}.example.com", "[A-Z].example.com",
+		// patterns the glob library compiles although a brace is never closed (the literal in front of the brace ends a looked-up host)
+		"*m{", "foo.com{", "a{", "*{"} {
 		jobs = append(jobs, "route add s "+h+"/ http://10.0.0.1:80/\n")
 		jobs = append(jobs, "route add ok foo.com/ http://10.0.0.2:80/\nroute add s "+h+"/x http://10.0.0.1:80/\n")
 	}
